@@ -738,7 +738,18 @@ func regexCandidates(c *eng.Ctx) {
 		"the in-memory lookup tests every key of the bucket with rp.Match", "")
 	f := c.Fn("index/model.TrieBucket.FindValuesByRegexp")
 	its := c.Some(f, eng.AnyCallTo("github.com/lindb/lindb/pkg/trie.SuccinctTrie.NewPrefixIterator", "pkg/trie.SuccinctTrie.NewPrefixIterator", "pkg/trie.trie.NewPrefixIterator"), "tree.NewPrefixIterator(prefix)")
-	c.Check(len(p.Sites(f, eng.AnyCallTo("regexp.Regexp.Match", "regexp.Regexp.MatchString"))) > 0, "persisted-tests-with-match", nil, f, "the persisted lookup tests candidate keys with rp.Match", "")
+	usesMatch := len(p.Sites(f, eng.AnyCallTo("regexp.Regexp.Match", "regexp.Regexp.MatchString"))) > 0
+	for _, b := range f.Blocks {
+		for _, in := range b.Instrs {
+			// rp.Match handed to a scanning helper as a predicate
+			if mc, ok := in.(*ssa.MakeClosure); ok {
+				if g, ok := mc.Fn.(*ssa.Function); ok && strings.HasPrefix(g.Name(), "Match") && strings.Contains(g.String(), "regexp.Regexp") {
+					usesMatch = true
+				}
+			}
+		}
+	}
+	c.Check(usesMatch, "persisted-tests-with-match", nil, f, "the persisted lookup tests candidate keys with rp.Match", "")
 	isLit := func(x ssa.Value) bool {
 		cl, ok := x.(*ssa.Call)
 		return ok && cl.Common().StaticCallee() != nil && cl.Common().StaticCallee().Name() == "LiteralPrefix"
@@ -784,7 +795,11 @@ func regexCandidates(c *eng.Ctx) {
 				return
 			}
 			if eng.DependsOn(v, isLit) {
-				conds, _ := eng.GuardingConds(f, it.Instr)
+				at := eng.TopOf(f, it)
+				if at == nil {
+					at = it.Instr
+				}
+				conds, _ := eng.GuardingConds(f, at)
 				for _, cd := range conds {
 					if eng.DependsOn(cd, isAnchorTest) {
 						return
@@ -793,7 +808,7 @@ func regexCandidates(c *eng.Ctx) {
 				bad = p.Desc(v)
 			}
 		}
-		visit(eng.Unwrap(a[0]), map[ssa.Value]bool{})
+		visit(eng.Unwrap(eng.UpParamVia(f, it, a[0])), map[ssa.Value]bool{})
 		c.Check(bad == "", fmt.Sprintf("prefix-narrowing-only-when-anchored[%d]", i), it.Instr, f,
 			"the keys visited in a persisted bucket are narrowed to those starting with rp.LiteralPrefix() only when the expression is anchored at the beginning; for an unanchored expression every key is a candidate, as in the in-memory lookup",
 			"the iterator prefix "+bad+" derives from LiteralPrefix() without an anchoring test")
